@@ -38,7 +38,8 @@ MIN_MONITORS = {"*": dict({c: 1 for c in _CONTRACTS}, **{"array2d.slim": 1, "gri
                                                          "indexes.native_for_slim": 1, "array1d.roundtrip": 1, "shared_input.two_masks": 1,
                                                          "shared_input.remasked_structure": 1, "history.native_after_assignment": 20,
                                                          "history.indexes_after_mask_edit": 20, "mask_spelling.same_as_boolean": 20, "remask.apply_mask_on_masked_structure": 20,
-                                                         "native_only.masked_positions_zero": 100})}
+                                                         "native_only.masked_positions_zero": 100, "ownership.callers_mask_array_reused": 20,
+                                                         "ownership.np_array_is_a_copy": 20, "ownership.same_content_other_shapes": 20})}
 
 
 def plan(tier, seed):
@@ -393,8 +394,61 @@ def check_2d(ctx, m, rng, full=True, lite=False):
             if how == "copy_then_edit":
                 okh = okh and np.array_equal(_np(mk.derive_indexes.native_for_slim), np.argwhere(~m))
             ctx.check(okh, "history.indexes_after_mask_edit", how=how, mask_before=m, mask_now=m2_, native_for_slim=nfs2, unmasked_slim=un2)
+    if full and H * W >= 2 and (int(m.sum()) + H + 2 * W) % 3 == 0:
+        check_ownership(ctx, m, rng)
     ctx.case("2d", m, nontrivial=bool(m.any()), cls=classes_of(m),
              sample=lambda: {"mask": m.astype(int).tolist(), "unmasked": n, "constructions": 24 if full else (4 if lite else 8)})
+
+
+def check_ownership(ctx, m, rng):
+    """Who owns which buffer: (a) the caller's boolean work array is re-filled for the next mask after a mask was built from it; (b)
+    np.array(structure) is edited in place by the caller; (c) masks with the same flattened content and other shapes follow one
+    another in one process. The first mask / structure keeps describing what it was built from."""
+    aa = ctx.aa
+    H, W = m.shape
+    n = int((~m).sum())
+    # (a) caller-owned boolean array, re-used afterwards
+    work = m.copy()
+    mk = aa.Mask2D(mask=work, pixel_scales=(1.0, 2.0))
+    vals = 1.0 + np.arange(n, dtype=float)
+    A = aa.Array2D(values=vals.copy(), mask=mk)
+    G = aa.Grid2D(values=np.stack([vals, -vals], axis=-1), mask=mk)
+    work[:] = np.roll(work.ravel(), 1).reshape(H, W)           # the caller prepares its next mask in the same array
+    if n != H * W:
+        work[tuple(np.argwhere(~m)[0])] = True
+    exp_nat = np.zeros((H, W)); exp_nat[~m] = vals
+    d = mk.derive_indexes
+    ok_a = (np.array_equal(np.asarray(_np(mk)).astype(bool), m) and np.array_equal(_np(d.native_for_slim), np.argwhere(~m))
+            and np.array_equal(_np(d.unmasked_slim), np.flatnonzero(~m.ravel())))
+    try:
+        ok_a = ok_a and np.array_equal(_np(A.native), exp_nat) and np.array_equal(_np(G.native)[..., 0], exp_nat)
+    except Exception as e:
+        ok_a = False
+    ctx.check(ok_a, "ownership.callers_mask_array_reused", mask=m, callers_array_now=work, mask_object_now=lambda: np.asarray(_np(mk)).astype(bool))
+    # (b) np.array(...) of a structure / mask is a copy the caller may edit
+    mk2 = aa.Mask2D(mask=m.copy(), pixel_scales=(1.0, 2.0))
+    for store_native in (False, True):
+        A2 = aa.Array2D(values=vals.copy(), mask=mk2, store_native=store_native)
+        c = np.array(A2)
+        c -= 1000.0
+        ctx.check(np.array_equal(_np(A2.native), exp_nat) and np.array_equal(_np(A2.slim), vals), "ownership.np_array_is_a_copy", of="Array2D",
+                  stored_native=store_native, mask=m, got=lambda: _np(A2.native))
+    cm = np.array(mk2)
+    cm[...] = ~cm
+    ctx.check(np.array_equal(np.asarray(_np(mk2)).astype(bool), m) and np.array_equal(_np(mk2.derive_indexes.unmasked_slim), np.flatnonzero(~m.ravel())),
+              "ownership.np_array_is_a_copy", of="Mask2D", mask=m, got=lambda: np.asarray(_np(mk2)).astype(bool))
+    # (c) the same flattened content cut into other frame shapes, one after the other (tables must belong to the mask that publishes them)
+    flat = m.ravel()
+    shapes = [(h, flat.size // h) for h in range(1, flat.size + 1) if flat.size % h == 0]
+    good, seen = True, []
+    for (h, w) in shapes + shapes[::-1]:
+        mm = flat.reshape(h, w)
+        dd = aa.Mask2D(mask=mm.copy(), pixel_scales=1.0).derive_indexes
+        nfs_ = _np(dd.native_for_slim)
+        okc = np.array_equal(nfs_, np.argwhere(~mm)) and np.array_equal(_np(dd.unmasked_slim), np.flatnonzero(~mm.ravel()))
+        seen.append(((h, w), bool(okc)))
+        good = good and okc
+    ctx.check(good, "ownership.same_content_other_shapes", flattened_mask=flat, shapes_in_order=seen)
 
 
 def check_1d(ctx, m, rng):
